@@ -1,10 +1,68 @@
 (* C03 — fire() from other threads: nothing lost or duplicated, the loop always wakes.
-   Only statements here; proofs live in Proofs/WakeP.v. *)
+   Only statements here; the model is Model/Wake.v, proofs live in Proofs/WakeP.v.
+
+   The model is an interleaving transition system (one loop thread, any number of firing threads, any
+   number of events; every step is one shared-memory access or one lock / Event / pipe operation of
+   the real source).  [reachable m s] = s is reached from the initial state by some interleaving. *)
 From Coq Require Import List Arith Bool.
 From Circ Require Import Model.Wake Proofs.WakeP.
 Import ListNotations.
 
-Theorem C03_trace_split : forall tr1 tr2 s,
-  run s (tr1 ++ tr2) = match run s tr1 with Some s' => run s' tr2 | None => None end.
-Proof. exact run_app. Qed.
-Print Assumptions C03_trace_split.
+(* Safety form of "fire() returning implies the loop dispatches that event without needing a timeout":
+   whenever the loop thread is parked in its idle wait (FallBackGenerator: Event.wait with or without
+   timeout; poller: select/poll/epoll with timeout None or > 0) and the wake object is not signalled
+   (flag clear / control pipe empty), no event of a fire() call that has returned is still queued. *)
+Theorem C03_no_lost_wakeup : forall m s, reachable m s -> blocked s = true ->
+  forall e, In e (pending s) -> returned s e = false.
+Proof. exact no_lost_wakeup. Qed.
+Print Assumptions C03_no_lost_wakeup.
+
+(* What is queued in such a state belongs to a thread that is still inside _fire, owns the lock, and is
+   in reduce_time_left(0) of the very generate_events the loop waits in, before its resume(): the wake-up
+   is in flight and that thread is enabled. *)
+Theorem C03_wake_in_flight : forall m s, reachable m s -> blocked s = true ->
+  forall i k, In (EvF i k) (pending s) ->
+  S k = fapp (fts s i) /\
+  (exists d, lock s = Some (S i, d)) /\
+  exists r, fp (fts s i) = FRed (cur s) r /\ r <> RRel /\ (tlc s = Zero -> fl_post (fp (fts s i)) = true).
+Proof. exact blocked_wake_in_flight. Qed.
+Print Assumptions C03_wake_in_flight.
+
+(* the RLock double-entry bookkeeping: at most one thread is inside a critical section *)
+Theorem C03_mutual_exclusion : forall m s, reachable m s -> forall t u,
+  0 < held s t -> 0 < held s u -> t = u.
+Proof. exact mutual_exclusion. Qed.
+Print Assumptions C03_mutual_exclusion.
+
+(* ---- non-vacuity: blocked states with a queued foreign event are reachable (the firing thread is mid-fire) *)
+Definition idle_fallback : list (nat * lbl) :=
+  map (fun a => (0, a))
+    [ACount; AAppG Neg; ASnap; AMove; ACall (EvG 0); AAcq; ASetH; AArmTest; ARel; ASetHd HWake;
+     AAcq; AWTest; AClear; ARel; AWTestPos; AWTestNeg].
+Definition fire_upto_append : list (nat * lbl) := map (fun a => (1, a)) [AAcq; AFReadH; ACount; AAppF].
+Definition fire_rest : list (nat * lbl) :=
+  map (fun a => (1, a)) [AAcq; ARTest; ARWrite; ARHd; ARGet; ASig; ARel; ARel; ARet].
+
+Example C03_ex_blocked_in_flight :
+  exists s, run (init Fallback) (idle_fallback ++ fire_upto_append) = Some s /\
+            blocked s = true /\ pending s = [EvF 0 0] /\ returned s (EvF 0 0) = false.
+Proof. eexists. split; [vm_compute; reflexivity|]. vm_compute. auto. Qed.
+
+Example C03_ex_woken :
+  exists s, run (init Fallback) (idle_fallback ++ fire_upto_append ++ fire_rest) = Some s /\
+            blocked s = false /\ pending s = [EvF 0 0] /\ returned s (EvF 0 0) = true /\
+            step s (0, AWait true) <> None.
+Proof. eexists. split; [vm_compute; reflexivity|]. vm_compute. repeat split; discriminate. Qed.
+
+(* a firing thread that skipped resume() is not a behaviour of the model *)
+Example C03_ex_no_silent_return :
+  accepts Fallback (idle_fallback ++ fire_upto_append ++
+                    map (fun a => (1, a)) [AAcq; ARTest; ARWrite; ARHd; ARGet; ARel]) = false.
+Proof. vm_compute. reflexivity. Qed.
+
+Example C03_ex_poller :
+  exists s, run (init Poller)
+      (map (fun a => (0, a)) [ACount; AAppG Neg; ASnap; AMove; ACall (EvG 0); AAcq; ASetH; AArmTest; ARel;
+                              ASetHd HWake; APRead] ++ fire_upto_append) = Some s /\
+    blocked s = true /\ pending s = [EvF 0 0] /\ returned s (EvF 0 0) = false.
+Proof. eexists. split; [vm_compute; reflexivity|]. vm_compute. auto. Qed.
